@@ -8,7 +8,9 @@ quick checks, restores /repo, and records the verdicts in /verif/benign/<id>/res
 """
 import json, os, shutil, subprocess, sys
 VERIF = os.path.dirname(os.path.dirname(os.path.abspath(__file__)))
-ENV = dict(os.environ, CARGO_NET_OFFLINE="true")
+# evidence of runs against a mutated tree goes to a scratch directory: the tracked /verif/evidence must only ever come
+# from runs against /repo itself
+ENV = dict(os.environ, CARGO_NET_OFFLINE="true", VERIF_EVIDENCE_DIR=os.path.join(os.path.dirname(os.path.dirname(os.path.abspath(__file__))), ".work", "evidence-of-mutated-trees"))
 ALL = ["C%02d" % i for i in range(1, 20)]
 
 def sh(cmd, cwd=None, timeout=7200):
